@@ -169,6 +169,140 @@ where
     rep.class_n(&format!("{}.capacity_probes", K::NAME), rounds as u64);
 }
 
+/// Fill the store with live nodes (children from the layers below, every (level, hi, lo) triple
+/// used once) until the allocation fails; returns the number of inner nodes stored at that point.
+fn fill_to_oom<K: BoolKind>(mr: &MRef<K>, n: u32, limit: usize) -> usize
+where
+    for<'id> <<K::F as Function>::Manager<'id> as Manager>::InnerNode: oxidd::HasLevel,
+{
+    mr.with_manager_shared(|m| {
+        use oxidd::Edge;
+        use oxidd_core::Countable;
+        let mut t = K::F::t(m);
+        while let Some(c) = t.cofactor_false() {
+            t = c;
+        }
+        let f = K::F::f(m);
+        let mut prev: Vec<_> = vec![m.clone_edge(t.as_edge(m)), m.clone_edge(f.as_edge(m))];
+        let mut edges = vec![];
+        'outer: for level in (0..n).rev() {
+            let mut this = vec![];
+            for i in 0..prev.len() {
+                if prev[i].tag().as_usize() != 0 || (K::KIND == crate::model::BKind::Zbdd && prev[i] == *f.as_edge(m)) {
+                    continue;
+                }
+                for j in 0..prev.len() {
+                    if i == j {
+                        continue;
+                    }
+                    if edges.len() > limit {
+                        break 'outer;
+                    }
+                    let node = <<K::F as Function>::Manager<'_> as Manager>::InnerNode::new(level, [m.clone_edge(&prev[i]), m.clone_edge(&prev[j])]);
+                    match m.level(level).get_or_insert(node) {
+                        Ok(e) => {
+                            if this.len() < 400 {
+                                this.push(m.clone_edge(&e));
+                            }
+                            edges.push(e);
+                        }
+                        Err(_) => break 'outer,
+                    }
+                }
+            }
+            prev.extend(this);
+            if prev.len() > 400 {
+                for e in prev.drain(400..) {
+                    m.drop_edge(e);
+                }
+            }
+        }
+        // everything created is still referenced: nothing a collector could have removed
+        let stored = m.num_inner_nodes();
+        for e in edges {
+            m.drop_edge(e);
+        }
+        for e in prev {
+            m.drop_edge(e);
+        }
+        stored
+    })
+}
+
+/// Stores of 64 Ki slots and more hand out slots in per-thread chunks (smaller ones slot by
+/// slot). Scenario: in ONE `with_manager_shared` session nodes are created from a freshly
+/// pre-allocated chunk, all of them die, `gc()` runs and the session ends with a partly used
+/// chunk and a non-empty thread-local free list. Afterwards exactly as many nodes must fit into
+/// the manager as into a fresh manager of the same capacity.
+pub fn chunk_probe<K: BoolKind>(seed: u64, rounds: u32, exact: bool, rep: &mut Report)
+where
+    for<'id> <<K::F as Function>::Manager<'id> as Manager>::InnerNode: oxidd::HasLevel,
+{
+    let mut s = seed;
+    for round in 0..rounds {
+        if !exact {
+            s = mix(s);
+        }
+        let n = 12u32;
+        let cap = (1usize << 16) + (s >> 8) as usize % 40_000;
+        let sessions = 1 + (s >> 40) % 3;
+        let ctx = json!({"kind": K::NAME, "n": n, "capacity": cap, "round": round, "seed": s, "chunked": true});
+        progress(&json!({"sig": format!("C05/{}/chunk-probe/crash", K::NAME), "ctx": ctx}).to_string());
+        let order: Vec<u32> = (0..n).collect();
+        let fresh = {
+            let mr = crate::build::mk_manager::<K>(n, &order, cap, 16, 1);
+            fill_to_oom::<K>(&mr, n, cap + 10)
+        };
+        let mr = crate::build::mk_manager::<K>(n, &order, cap, 16, 1);
+        let baseline = K::num_inner_nodes(&mr);
+        let mut removed_total = 0usize;
+        let mut r = s;
+        for _ in 0..sessions {
+            let steps = 200 + (mix(r) % 1500) as usize;
+            removed_total += mr.with_manager_shared(|m| {
+                let vs: Vec<K::F> = (0..n).map(|v| K::F::var(m, v).expect("oom var")).collect();
+                let mut acc = m.clone_edge(vs[0].as_edge(m));
+                let mut dead = vec![];
+                for _ in 0..steps {
+                    r = mix(r);
+                    let v = vs[(r % n as u64) as usize].as_edge(m);
+                    let res = match (r >> 8) % 3 {
+                        0 => K::F::and_edge(m, &acc, v),
+                        1 => K::F::or_edge(m, &acc, v),
+                        _ => K::F::xor_edge(m, &acc, v),
+                    };
+                    let Ok(res) = res else { break };
+                    dead.push(std::mem::replace(&mut acc, res));
+                }
+                m.drop_edge(acc);
+                for e in dead {
+                    m.drop_edge(e);
+                }
+                drop(vs);
+                m.gc()
+            });
+        }
+        K::gc(&mr);
+        rep.evaluations += 1;
+        let after = K::num_inner_nodes(&mr);
+        if after != baseline {
+            rep.viol(format!("C05/{}/baseline-after-dropall-gc", K::NAME), format!("chunked store: after dropping all handles and gc(): {after} inner nodes, initial count was {baseline}"), ctx.clone());
+            continue;
+        }
+        let again = fill_to_oom::<K>(&mr, n, cap + 10);
+        rep.evaluations += 1;
+        if again != fresh {
+            rep.viol(format!("C05/{}/capacity-lost", K::NAME), format!("chunked store of capacity {cap}: after {sessions} session(s) of create/drop/gc (collections removed {removed_total} nodes) only {again} inner nodes fit, a fresh manager takes {fresh}"), ctx.clone());
+        } else if removed_total > 0 {
+            rep.nontrivial += 1;
+        }
+        if rep.samples.len() < 1 {
+            rep.sample(json!({"suite": "chunk probe", "ctx": ctx, "removed_by_gc": removed_total, "inner_nodes_at_oom": again, "fresh_manager": fresh}));
+        }
+    }
+    rep.class_n(&format!("{}.chunk_probes", K::NAME), rounds as u64);
+}
+
 /// Automatic background collections: a manager with capacity >= 100 starts its collector at
 /// 95 % fill. Random operations keep the store around the high-water mark while handles are
 /// alive; every result is compared with the model, and after the run (collector idle, exclusive
@@ -466,6 +600,21 @@ pub fn add_jobs<'a>(cfg: &'a Cfg, jobs: &mut Vec<Box<dyn FnMut(&mut dyn Write) +
     probe!(BddK, 1);
     probe!(BcddK, 2);
     probe!(ZbddK, 3);
+    macro_rules! chunk {
+        ($K:ty, $salt:expr) => {
+            let seed = mix(cfg.seed ^ (0xc05_c00 + $salt));
+            let rounds = cfg.t(8, 80);
+            names.push(format!("chunk-probe/{}", <$K>::NAME));
+            jobs.push(Box::new(move |w: &mut dyn Write| {
+                let mut rep = Report::default();
+                chunk_probe::<$K>(seed, rounds, false, &mut rep);
+                rep.emit(w);
+            }));
+        };
+    }
+    chunk!(BddK, 1);
+    chunk!(BcddK, 2);
+    chunk!(ZbddK, 3);
 }
 
 pub fn mk_ri(i: u64) -> crate::vmodel::RI {
@@ -483,6 +632,8 @@ pub fn replay_scenario(_sig: &str, case: &serde_json::Value) -> Option<Result<()
     let kind = case["kind"].as_str()?.to_string();
     let scen = if case.get("terminal_capacity").is_some() {
         "terminal-probe"
+    } else if case.get("chunked").is_some() {
+        "chunk-probe"
     } else if case["capacity"].as_u64()? < 100 {
         "capacity-probe"
     } else {
@@ -498,6 +649,9 @@ pub fn replay_scenario(_sig: &str, case: &serde_json::Value) -> Option<Result<()
             ("capacity-probe", "bdd") => capacity_probe::<BddK>(seed, 1, true, &mut rep),
             ("capacity-probe", "bcdd") => capacity_probe::<BcddK>(seed, 1, true, &mut rep),
             ("capacity-probe", "zbdd") => capacity_probe::<ZbddK>(seed, 1, true, &mut rep),
+            ("chunk-probe", "bdd") => chunk_probe::<BddK>(seed, 1, true, &mut rep),
+            ("chunk-probe", "bcdd") => chunk_probe::<BcddK>(seed, 1, true, &mut rep),
+            ("chunk-probe", "zbdd") => chunk_probe::<ZbddK>(seed, 1, true, &mut rep),
             ("auto-gc", "bdd") => auto_gc::<BddK>(seed, 1, true, &mut rep),
             ("auto-gc", "bcdd") => auto_gc::<BcddK>(seed, 1, true, &mut rep),
             ("auto-gc", "zbdd") => auto_gc::<ZbddK>(seed, 1, true, &mut rep),
